@@ -229,6 +229,11 @@ func TestVerifC20Format(t *testing.T) {
 		default:
 			class = "missing-designer"
 			tmpl = pre + c20WordCase(r, "go", true) + thr + suf
+			if r.Intn(3) == 0 {
+				// neither word: fillers only, incl. the empty and the blank template
+				class = "missing-both"
+				tmpl = []string{"", " ", "\t\n", "\u00a0", "\u3000", pre + thr + suf, "_", "  "}[r.Intn(8)]
+			}
 		}
 		gos, des := c20IndexFoldAll(tmpl, "go"), c20IndexFoldAll(tmpl, "designer")
 		wantGo, wantDe := 1, 1
@@ -237,6 +242,9 @@ func TestVerifC20Format(t *testing.T) {
 		}
 		if class == "missing-designer" {
 			wantDe = 0
+		}
+		if class == "missing-both" {
+			wantGo, wantDe = 0, 0
 		}
 		if class == "valid-go-in-suffix" {
 			// exactly one 'designer', exactly one 'go' before it, the others after it
